@@ -695,6 +695,12 @@ impl Database {
         self.shared.next_index_id.fetch_add(1, Ordering::AcqRel)
     }
 
+    /// verification hook (add-only): exposes the crate-private OwnedValue -> index key glue.
+    #[cfg(kahflane_turdb_verif)]
+    pub fn verif_encode_value_as_key(value: &OwnedValue, buf: &mut Vec<u8>) {
+        Self::encode_value_as_key(value, buf)
+    }
+
     pub(crate) fn encode_value_as_key<B: crate::encoding::key::KeyBuffer>(
         value: &OwnedValue,
         buf: &mut B,
